@@ -236,20 +236,19 @@ impl Engine for C16Engine {
     fn ops_range(&self) -> (usize, usize) {
         (0, 0)
     }
-    fn enumerate(&self) -> Option<Vec<ByteCase>> {
-        if !self.fixed_grid {
-            return None;
+    fn enum_len(&self) -> Option<u64> {
+        if self.fixed_grid {
+            Some((ENTRIES.len() * 10) as u64)
+        } else {
+            None
         }
-        let mut v = vec![];
-        for e in 0..ENTRIES.len() {
-            for k in 0..10 {
-                // inverse of pick(): smallest byte mapping to the index
-                let pe = ((e * 256 + ENTRIES.len() - 1) / ENTRIES.len()) as u8;
-                let pk = ((k * 256 + 13) / 14) as u8;
-                v.push(ByteCase { params: vec![pe, pk, 0, 0, 0, 0, 0, 0, 0, 0], ops: vec![] });
-            }
-        }
-        Some(v)
+    }
+    fn enum_at(&self, i: u64) -> Option<ByteCase> {
+        let (e, k) = (i as usize / 10, i as usize % 10);
+        // inverse of pick(): smallest byte mapping to the index
+        let pe = ((e * 256 + ENTRIES.len() - 1) / ENTRIES.len()) as u8;
+        let pk = ((k * 256 + 13) / 14) as u8;
+        Some(ByteCase { params: vec![pe, pk, 0, 0, 0, 0, 0, 0, 0, 0], ops: vec![] })
     }
     fn run(&self, c: &ByteCase, trace: bool) -> CaseReport {
         let _ = viol::take();
